@@ -34,7 +34,7 @@ def runShape (x : Sexp) : P String := do
     | none => pure "s 0 0 0"
     | some op =>
       let shape := Valid.shapeResponse Concrete.ops s r.doc op r.vars r.root data
-      let mayNull := Valid.mayHitNullViaDefault r.doc op r.vars
+      let mayNull := Valid.mayHitNullViaDefault s r.doc op r.vars
       let spec := Spec.executeRequest Concrete.ops s r.doc r.opName r.vars r.root
       pure s!"s {bit shape} {bit mayNull} {spec.errors.length}"
   | _ => fail "case"
